@@ -10,9 +10,12 @@ hook_commits = subprocess.check_output("git -C /repo log --format='%h %s' | grep
 CLAIMS = {
     "C01": ("proof",
             "Coq: the read path is proved for every well-formed tree (lookups = association in the flattened sorted list, cursor = "
-            "flatten: SearchFacts/CursorFacts/SeekFacts), the page codec round-trips (CodecFacts); the write path (put/delete/"
-            "rebalance/spill) is NOT proved in general: it is validated per commit on the real files by the extracted Gallina decoder "
-            "(inv_check + contents = reference) and every call is compared with the extracted reference map (C01_partial in DESIGN.md).",
+            "flatten: SearchFacts/CursorFacts/SeekFacts), the page codec round-trips (CodecFacts); the write path is proved at node level "
+            "(EngineFacts: leaf insert / delete = the reference map's insert / remove, merge and split keep every entry in order) but the "
+            "lift to whole transactions (descent + rebalance + spill + commit) is NOT proved: it is validated per commit on the real files by the extracted Gallina decoder "
+            "(inv_check + contents = reference), every call is compared with the extracted reference map, the engine model must reproduce each "
+            "committed file page for page, and the engine model alone is searched against the reference over exhaustive shape families "
+            "with hits replayed on the library (C01_partial in DESIGN.md).",
             "trusted: Coq kernel + vm_compute, translator gen_consts.py, extraction (ExtrOcamlBasic only), monitor.ml, Rust harness, "
             "generators; the B+tree write algorithms are modelled only through their observable results and decoded files",
             "Coq theorems (read path, codec) + differential correspondence against the extracted reference and decoder", "6/C01, 10"),
@@ -52,7 +55,8 @@ CLAIMS = {
             "Coq (PLFacts.partition / accept_inv; CodecFacts; Tree.inv_check): the page-lifecycle invariant gives 'every page below the "
             "high-water mark is exactly one of live / free / pending'; inv_check (extracted, run on EVERY committed file) checks the "
             "partition, key order within and across pages, separator bounds, element bounds; DB::check must agree.",
-            "soundness of inv_check w.r.t. a declarative Inv is by construction of the checker (it computes the partition equation); the "
+            "CheckFacts.inv_check_partition proves what an inv_check verdict means (reachable ++ free-list run ++ free ids = a duplicate-free "
+            "permutation of [2, num_pages)) for every file; the "
             "engine is not proved to satisfy the contract, it is validated per commit",
             "Coq invariant + proved-codec decoder run on every real committed file", "6/C05"),
     "C06": ("proof",
@@ -120,15 +124,16 @@ CLAIMS = {
             "struct field lists, a recorded page size different from the one given to open is refused; the golden files written once by the "
             "pinned release at 1024 / 4096 / 5000 / 16384 and their legacy-header variants are decoded by the same Gallina functions (the "
             "legacy checksum by the Gallina SHA3-256) and opened, continued and mis-opened with the library on every run.",
-            "the legacy header round trip (encode_old_meta_page) is executable but not proved; it is exercised on the golden files; "
-            "golden files and python's hashlib are trusted as the record of the old format",
+            "OldMetaFacts proves the legacy (SHA3-256) header round trip and that legacy / mixed files open on the right header, under the "
+            "stated premise that a legacy page is not also a valid current-format header; golden files and python's hashlib are trusted as the record of the old format",
             "Coq codec theorems over generated layout + golden-file differential (library vs Gallina decoder)", "6/C15"),
     "C16": ("translation_validation",
             "The same histories are replayed under the configuration grid (page size x initial pages x strict x populate) and every call "
             "and every committed file's decoded contents must equal the single reference run, so configurations are pairwise equal; strict "
             "mode never rejects; growth runs cross >= 3 extension steps; every builder value 1024..1100 (+ odd large) works or is refused "
             "cleanly in both profiles. Coq (CfgFacts): the builder accepts exactly valid_cfg (from the GENERATED guards) and exactly those "
-            "keep every page structure 8-byte aligned; the pinned builder without the alignment guard is refuted.",
+            "keep every page structure 8-byte aligned; the pinned builder without the alignment guard is refuted; CheckFacts: the model of "
+            "DB::check (compared with the library's verdict on every snapshot) accepts every file the file checker accepts.",
             "the equality library = reference per configuration is validated, not proved (inherits C01's unproved write path); page sizes "
             ">= 2^24 and initial files > 80 MB are not exercised",
             "configuration-grid differential against the extracted reference + Coq lemmas on the generated builder guards", "6/C16"),
